@@ -182,6 +182,15 @@ class Driver:
     def cls(self):
         raise NotImplementedError
 
+    def arr(self, name, value, dtype=None):
+        """Create a caller-side array and remember it (C06 snapshots the
+        very objects that were handed to the library)."""
+        a = np.array(value, dtype=dtype) if dtype else np.array(value)
+        if not hasattr(self, "last_inputs"):
+            self.last_inputs = {}
+        self.last_inputs[name] = a
+        return a
+
     def models(self, tier):
         raise NotImplementedError
 
@@ -310,9 +319,11 @@ class NetworkDriver(Driver):
         return ms
 
     def construct(self, model):
-        net = self.cls()(adjacency=np.array(model["A"]),
+        net = self.cls()(adjacency=self.arr("adjacency", model["A"]),
                          directed=model["directed"],
-                         node_weights=model["w"], silence_level=3)
+                         node_weights=None if model["w"] is None else
+                         self.arr("node_weights", model["w"], float),
+                         silence_level=3)
         self.restore_la(net, model)
         return net
 
@@ -477,7 +488,8 @@ class SpatialDriver(NetworkDriver):
         return [{"A": A6, "directed": False, "w": None, "la": {}}]
 
     def construct(self, model):
-        net = self.cls()(grid=plain_grid(), adjacency=np.array(model["A"]),
+        net = self.cls()(grid=plain_grid(),
+                         adjacency=self.arr("adjacency", model["A"]),
                          directed=model["directed"], silence_level=3)
         if model["w"] is not None:
             net.node_weights = model["w"]
@@ -541,7 +553,8 @@ class GeoDriver(SpatialDriver):
                  "nwt": "surface"}]
 
     def construct(self, model):
-        net = self.cls()(grid=geo_grid(), adjacency=np.array(model["A"]),
+        net = self.cls()(grid=geo_grid(),
+                         adjacency=self.arr("adjacency", model["A"]),
                          directed=model["directed"],
                          node_weight_type=model["nwt"], silence_level=3)
         if model["w"] is not None:
@@ -612,8 +625,9 @@ class ResDriver(Driver):
         grid = GeoGrid(time_seq=np.arange(10),
                        lat_seq=np.absolute(np.linspace(-90, 90, n)),
                        lon_seq=np.linspace(-180, 180, n), silence_level=3)
-        return self.cls()(np.array(RES_R[model["R"]], dtype=float), grid=grid,
-                          adjacency=np.array(RES_A, dtype="int8"),
+        return self.cls()(self.arr("resistances", RES_R[model["R"]], float),
+                          grid=grid,
+                          adjacency=self.arr("adjacency", RES_A, "int8"),
                           silence_level=3)
 
     def mutators(self, model):
@@ -658,7 +672,8 @@ class ClimateDriver(Driver):
         return [{"t": 0.5, "non_local": False, "directed": False}]
 
     def construct(self, model):
-        return self.cls()(grid=geo_grid(), similarity_measure=np.array(SIM6),
+        return self.cls()(grid=geo_grid(),
+                          similarity_measure=self.arr("similarity", SIM6),
                           threshold=model["t"], non_local=model["non_local"],
                           directed=model["directed"],
                           node_weight_type="surface", silence_level=3)
@@ -702,7 +717,8 @@ class ClimateDriver(Driver):
 register(ClimateDriver())
 
 
-def climate_data(anomalies=False, window=None, T=10, time_cycle=5):
+def climate_data(anomalies=False, window=None, T=10, time_cycle=5,
+                 rec=None):
     from pyunicorn.climate import ClimateData
     N = 6
     t = np.arange(T)[:, None]
@@ -711,7 +727,10 @@ def climate_data(anomalies=False, window=None, T=10, time_cycle=5):
     from pyunicorn.core import GeoGrid
     grid = GeoGrid(time_seq=np.arange(T), lat_seq=np.array(LAT6, float),
                    lon_seq=np.array(LON6, float), silence_level=3)
-    return ClimateData(observable=obs.astype(float), grid=grid,
+    obs = obs.astype(float)
+    if rec is not None:
+        rec["observable"] = obs
+    return ClimateData(observable=obs, grid=grid,
                        time_cycle=time_cycle, anomalies=anomalies,
                        window=window, silence_level=3)
 
@@ -795,7 +814,7 @@ class RPDriver(Driver):
                  "metric": "supremum"}]
 
     def ctor_args(self, model):
-        return (np.array(TS_A),)
+        return (self.arr("time_series", TS_A),)
 
     def construct(self, model):
         kw = {RP_KW[model["how"][0]]: model["how"][1]}
@@ -887,7 +906,7 @@ class CRPDriver(RPDriver):
         return CrossRecurrencePlot
 
     def ctor_args(self, model):
-        return (np.array(TS_A), np.array(TS_B[:8]))
+        return (self.arr("x", TS_A), self.arr("y", TS_B[:8]))
 
     def has_attr(self, a):
         return a in ("N", "M", "@str")
@@ -920,7 +939,7 @@ class JRPDriver(RPDriver):
                  "metric": ["supremum", "supremum"]}]
 
     def ctor_args(self, model):
-        return (np.array(TS_A), np.array(TS_B))
+        return (self.arr("x", TS_A), self.arr("y", TS_B))
 
     def construct(self, model):
         kw = {RP_KW[model["how"][0]]: tuple(model["how"][1])}
@@ -987,7 +1006,7 @@ class ISRNDriver(RPDriver):
                  "emb": None, "metric": "supremum"}]
 
     def ctor_args(self, model):
-        return (np.array(TS_A[:6]), np.array(TS_B[:5]))
+        return (self.arr("x", TS_A[:6]), self.arr("y", TS_B[:5]))
 
     def construct(self, model):
         kw = {RP_KW[model["how"][0]]: tuple(model["how"][1])}
@@ -1051,7 +1070,7 @@ class VGDriver(NetworkDriver):
         return [{"A": None, "directed": False, "w": None, "la": {}}]
 
     def construct(self, model):
-        vg = self.cls()(np.array(TS_A[:6]), silence_level=3)
+        vg = self.cls()(self.arr("time_series", TS_A[:6]), silence_level=3)
         if model["A"] is not None:
             vg.adjacency = np.array(model["A"])
         if model["w"] is not None:
@@ -1116,7 +1135,8 @@ class SurrogatesDriver(Driver):
         return [{"emb": None, "normalized": False}]
 
     def construct(self, model):
-        s = self.cls()(np.array(SUR_DATA, dtype=float), silence_level=3)
+        s = self.cls()(self.arr("original_data", SUR_DATA, float),
+                       silence_level=3)
         if model["normalized"]:
             s.normalize_original_data()
         if model["emb"]:
@@ -1190,7 +1210,9 @@ class ClimateDataDriver(Driver):
 
     def construct(self, model):
         w = None if model["win"] == 0 else dict(CD_WINDOWS[model["win"]])
-        return climate_data(anomalies=model["anomalies"], window=w)
+        self.last_inputs = {}
+        return climate_data(anomalies=model["anomalies"], window=w,
+                            rec=self.last_inputs)
 
     def mutators(self, model):
         ms = [("set_window(#%d)" % i, ["set_window", i])
@@ -1225,3 +1247,140 @@ class ClimateDataDriver(Driver):
 
 
 register(ClimateDataDriver())
+
+
+# --------------------------------------------------------------------------
+# classes without public mutators: used by C06 only
+
+
+class _QueryOnly(Driver):
+    c06_only = True
+
+    def mutators(self, model):
+        return []
+
+    def apply(self, obj, model, spec):
+        raise ValueError(spec)
+
+    def has_attr(self, a):
+        return a in ("@str",)
+
+
+class CouplingDriver(_QueryOnly):
+    name = "CouplingAnalysis"
+    extra_queries = (
+        ["cross_correlation", [], {"tau_max": 2, "lag_mode": "max"}],
+        ["cross_correlation", [], {"tau_max": 2, "lag_mode": "all"}],
+        ["mutual_information", [], {"tau_max": 1, "estimator": "binning",
+                                    "bins": 3, "lag_mode": "max"}],
+        ["mutual_information", [], {"tau_max": 1, "estimator": "gauss",
+                                    "lag_mode": "all"}],
+        ["mutual_information", [], {"tau_max": 1, "estimator": "knn",
+                                    "knn": 3, "lag_mode": "max"}],
+        ["information_transfer", [], {"tau_max": 2, "estimator": "gauss",
+                                      "lag_mode": "max"}],
+        ["information_transfer", [], {"tau_max": 2, "estimator": "knn",
+                                      "knn": 3, "lag_mode": "max"}],
+    )
+
+    def cls(self):
+        from pyunicorn.funcnet import CouplingAnalysis
+        return CouplingAnalysis
+
+    def models(self, tier):
+        return [{}]
+
+    def construct(self, model):
+        t = np.arange(40)[:, None]
+        data = (np.sin(0.9 * t + np.arange(4)[None, :])
+                + 0.3 * ((t * 7 + np.arange(4)[None, :] * 5) % 11) / 11.)
+        return self.cls()(self.arr("data", data, float), silence_level=3)
+
+    def has_attr(self, a):
+        return False
+
+
+register(CouplingDriver())
+
+
+class EventSeriesDriver(_QueryOnly):
+    name = "EventSeries"
+    extra_queries = (
+        ["event_series_analysis", [], {"method": "ES"}],
+        ["event_series_analysis", [], {"method": "ECA",
+                                       "symmetrization": "mean"}],
+        ["event_series_analysis", [], {"method": "ES",
+                                       "symmetrization": "antisym"}],
+    )
+
+    def cls(self):
+        from pyunicorn.eventseries import EventSeries
+        return EventSeries
+
+    def models(self, tier):
+        return [{}]
+
+    def construct(self, model):
+        ev = [[0, 1, 0], [1, 0, 0], [0, 0, 1], [0, 1, 0], [1, 1, 0],
+              [0, 0, 0], [0, 0, 1], [1, 0, 0], [0, 1, 1], [0, 0, 0]]
+        return self.cls()(self.arr("data", ev, int), taumax=2.0,
+                          timestamps=self.arr("timestamps",
+                                              np.arange(10.), float))
+
+
+register(EventSeriesDriver())
+
+
+class GeoGridDriver(_QueryOnly):
+    name = "GeoGrid"
+    deny = ("save_txt", "save", "print_boundaries", "print_grid_size")
+    extra_queries = (["region_indices", [], {"region": "REGION"}],)
+
+    def cls(self):
+        from pyunicorn.core import GeoGrid
+        return GeoGrid
+
+    def models(self, tier):
+        return [{}]
+
+    def construct(self, model):
+        return self.cls()(time_seq=self.arr("time_seq", np.arange(10.)),
+                          lat_seq=self.arr("lat_seq", LAT6, float),
+                          lon_seq=self.arr("lon_seq", LON6, float),
+                          silence_level=3)
+
+    def resolve(self, obj, v):
+        if v == "REGION":
+            # lon, lat, lon, lat, ... with a negative longitude
+            return self.arr("region", [-5., -1., 11., -1., 11., 12., -5., 12.],
+                            float)
+        return Driver.resolve(self, obj, v)
+
+    def has_attr(self, a):
+        return a in ("N", "@str")
+
+
+register(GeoGridDriver())
+
+
+class GridDriver(_QueryOnly):
+    name = "Grid"
+    deny = ("save", "print_grid_size")
+
+    def cls(self):
+        from pyunicorn.core import Grid
+        return Grid
+
+    def models(self, tier):
+        return [{}]
+
+    def construct(self, model):
+        return self.cls()(time_seq=self.arr("time_seq", np.arange(10.)),
+                          space_seq=self.arr("space_seq", [LAT6, LON6],
+                                             float), silence_level=3)
+
+    def has_attr(self, a):
+        return a in ("N", "@str")
+
+
+register(GridDriver())
